@@ -47,7 +47,7 @@ from . import quote as edgeql_quote
 from . import qltypes
 
 
-_BYTES_ESCAPE_RE = re.compile(b'[\\\'\x00-\x1f\x7e-\xff]')
+_BYTES_ESCAPE_RE = re.compile(b'[\\\\\'\x00-\x1f\x7e-\xff]')
 _NON_PRINTABLE_RE = re.compile(
     r'[\u0000-\u0008\u000B\u000C\u000E-\u001F\u007F\u0080-\u009F\n'
     r'\u202A-\u202E\u2066-\u2069]')
